@@ -63,6 +63,9 @@ func vCallAnon(name string, captured []any, args ...any) {}
 // vCallAnonErr is vCallAnon for a function that returns an error, which is stored in *res.
 func vCallAnonErr(res *error, name string, captured []any, args ...any) {}
 
+// vCallAnonRes is vCallAnon for a function with one result of any type, which is stored in *res.
+func vCallAnonRes[T any](res *T, name string, captured []any, args ...any) {}
+
 func vImplies(a, b bool) bool { return !a || b }
 
 // vKeep copies a loop-contract parameter before vBody (the parameter itself is re-bound to the next iteration's value).
